@@ -149,6 +149,13 @@ def directed_packages():
     out.append(('a collision, and name lists with white space of their own',
                 P.simple_package('<text:p text:class-names="Cls3   Cls1"><text:span text:style-name="T1">b</text:span></text:p>', autostyles=t1 % 'bold', styles=common,
                                  styles_auto='<style:page-layout style:name="pm1"/>' + t1 % 'normal', masterstyles=master)))
+    # a root element that declares its namespace as the default one - no prefix declaration in its start tag - and text
+    # further down that reads like one: load() patches declarations in textually, and only the root's start tag is its business
+    off, txt = 'urn:oasis:names:tc:opendocument:xmlns:office:1.0', 'urn:oasis:names:tc:opendocument:xmlns:text:1.0'
+    c = ('<?xml version="1.0" encoding="UTF-8"?>\n<document-content xmlns="%s"><automatic-styles/><body><text><p xmlns="%s">write xmlns:foo="bar" to declare it'
+         '<span> xmlns:meta = no</span></p><t:p xmlns:t="%s"\n xmlns:dc="http://purl.org/dc/elements/1.1/">second</t:p></text></body></document-content>') % (off, txt, txt)
+    out.append(('default namespace on the root, declarations and look-alikes further down',
+                P.make_package([('content.xml', c, 'text/xml'), ('styles.xml', P.styles_xml(), 'text/xml'), ('meta.xml', P.meta_xml(), 'text/xml')])))
     return out
 
 def run_one(ctx, d, refattrs, data, case):
@@ -188,6 +195,8 @@ def run_one(ctx, d, refattrs, data, case):
 def run(ctx):
     import odf
     d = ctx.get_driver()
+    from . import C13
+    C13.fix_part_correspondence(ctx, d)         # the textual patch in front of the parser: model vs code, C05_only_root_tag_patched on real outputs
     twin = json.load(open(os.path.join(vlib.COQ, 'gen', 'twin.json')))
     refattrs = set(tuple(x) for x in twin['GenStyleRefs.v']['schema'])
     S = rnglib.odf12(vlib.REPO)
